@@ -12,8 +12,18 @@ Per run:
         log is replayed through the Gallina `step` inside Coq (Model/MemoCheck.memo_check).
   (ii) history differential: random interleavings of public calls, each compared bitwise with the same call evaluated in
         a fresh interpreter, under several PYTHONHASHSEED values; plus fresh-vs-fresh across hash seeds.
+  (ii') NEAR-COLLISION stream (harness/props/c20_nearcol.py): for every memoised family (projection, multinomln, BetaBinomln, partition,
+        dbeta caches, the low-pass precalc cache, Godambe.cache, the demes front end, Inference bookkeeping, extrapolated model spectra) and
+        EVERY argument of every public entry point feeding it (signatures read from the source, fail-closed), calls B that differ from a base
+        call A in exactly that argument: A then the B's, and the B's then A, in one process, every call against its pristine-interpreter
+        value; a failing call is shrunk to a two-call history (the replay).  Props/C20.v: C20_near_collision_pair_decides,
+        C20_key_incomplete_iff_some_pair_fails say this is a complete test of key completeness.  All dictionaries that outlive a call are
+        enumerated from the source (harness/props/c20_scan.py) against EXPECTED_STATE; when that or any cache-key obligation breaks, the
+        families concerned run isolated (A, B) / (B, A) histories in thorough-size numbers before the check may conclude
+        no-failing-input-found.
   (iii) argument-layout differential: F-ordered, transposed, sliced, negatively strided, offset views against the
-        C-contiguous copy.
+        C-contiguous copy; includes the exporters (Spectrum.to_file / tofile, Numerics.array_to_file: the TEXT written for a
+        reorder_pops view / transposed / negatively strided / strided / Fortran-ordered spectrum = text for its contiguous copy).
   (iv) input freezing / aliasing on every evaluated call; observed protocol of every integrator call is checked against
         the extracted one inside Coq (Model/MemoCheck.proto_check).
 
@@ -28,6 +38,8 @@ from concurrent.futures import ThreadPoolExecutor
 from harness import lib
 from harness.lib import b
 from harness.translate import entry_protocol as ep
+from harness.props import c20_scan as scan
+from harness.props import c20_nearcol as nc
 
 R = os.path.join(lib.REPO, 'dadi')
 ENV = {'OPENBLAS_NUM_THREADS': '1', 'MKL_NUM_THREADS': '1', 'DADI_REPO': lib.REPO}
@@ -75,11 +87,60 @@ GODAMBE_KEYS = {
     '(func_ex, tuple(params), tuple(ns), tuple(grid_pts))': 'strong-reference',
 }
 
+# every piece of memo-like state in the source tree (c20_scan.memo_state: module-level dictionaries, dictionaries captured by a
+# generated closure, memoising decorators, mutable defaults that are stored into, state hung on function objects, `global`
+# re-bindings), per file relative to dadi/.  Any difference is a broken obligation and sends the check to the near-collision
+# search of the families of that file (nc.FAMILIES_OF_FILE).
+EXPECTED_STATE = {
+    'Godambe.py': ['module:cache'],
+    'Inference.py': ['default:_object_func.func_kwargs', 'default:_object_func_resid.func_kwargs', 'global:_object_func._counter',
+                     'global:_object_func._theta_store', 'global:_object_func_resid._counter', 'global:_object_func_resid._theta_store',
+                     'global:optimize_grid._theta_store', 'module:_theta_store'],
+    'Integration.py': ['global:set_timescale_factor.timescale_factor'],
+    'Misc.py': ['global:delayed_flush.__times_last_flushed', 'module:__times_last_flushed'],
+    'Numerics.py': ['module:_BetaBinomln_cache', 'module:_multinomln_cache', 'module:_part_cache', 'module:_part_precalc_cache', 'module:_projection_cache'],
+    'Plotting.py': ['module:_extend_mapping'],
+    'Spectrum_mod.py': ['global:Spectrum.from_demes.Demes', 'global:Spectrum.from_demes._imported_demes', 'global:Spectrum.from_demes.demes', 'module:_dbeta_cache'],
+    '__init__.py': ['module:__pdoc__'],
+    'Demes/Inference.py': ['global:_object_func._counter'],
+    'Demes/__init__.py': ['global:output.cache', 'modlist:cache'],
+    'LowPass/LowPass.py': ['closure:make_low_pass_func_GATK_multisample.precalc_cache'],
+    # outside the families the property names (tri-allelic / two-locus spectra, CUDA bindings): listed so that a change is seen, not exercised
+    'Triallele/numerics.py': ['module:projection_cache', 'module:sample_cache', 'module:transition1D_cache'],
+    'TwoLocus/demographics.py': ['global:set_cache_path.cache_path'],
+    'TwoLocus/inference.py': ['default:_object_func.func_kwargs', 'default:_object_func_interp.func_kwargs', 'global:_object_func._counter',
+                              'global:_object_func._theta_store', 'global:_object_func_interp._counter', 'global:_object_func_interp._theta_store'],
+    'TwoLocus/numerics.py': ['module:genotype_projection_cache', 'module:prob_cache', 'module:sample_cache'],
+    'cuda/cusparse.py': ['module:cusparseExceptions'],
+}
+
 # ------------------------------------------------------------------------------------------------------------------
 # (T) translators
 
 def translator_tie(ctx):
-    info = {'protocols': {}, 'godambe_key': None}
+    info = {'protocols': {}, 'godambe_key': None, 'broken_families': set()}
+    n_ob0 = len(ctx.obligations)
+    def mark(fams, since):
+        """obligations registered since index `since` that failed: their families get the thorough-size near-collision search"""
+        if any(not o['ok'] for o in ctx.obligations[since:]):
+            info['broken_families'].update(fams)
+    # --- every piece of memo-like state of the source tree, fail-closed
+    try:
+        state = scan.memo_state(R)
+    except ep.Refuse as e:
+        ctx.obligation('enumerate the memo-like state of dadi/**/*.py', False, 'translator', str(e))
+        info['broken_families'].update(nc.ALL_FAMILIES)
+        state = None
+    if state is not None:
+        diff = {}
+        for f in sorted(set(state) | set(EXPECTED_STATE)):
+            if sorted(state.get(f, [])) != sorted(EXPECTED_STATE.get(f, [])):
+                diff[f] = {'new': sorted(set(state.get(f, [])) - set(EXPECTED_STATE.get(f, []))), 'gone': sorted(set(EXPECTED_STATE.get(f, [])) - set(state.get(f, [])))}
+                info['broken_families'].update(nc.FAMILIES_OF_FILE.get(f, []))
+        ctx.obligation('dictionaries that outlive a call (module level, captured by a generated closure, memoising decorators, mutable defaults, function attributes, '
+                       'global re-bindings) in dadi/**/*.py are exactly the %d listed ones' % sum(len(v) for v in EXPECTED_STATE.values()),
+                       not diff, 'translator', json.dumps(diff)[:600])
+        info['memo_state_diff'] = diff
     # --- integrators
     try:
         protos = ep.integrator_protocols(os.path.join(R, 'Integration.py'))
@@ -179,6 +240,7 @@ def translator_tie(ctx):
             ctx.obligations[-1]['known_key'] = K_PERTURB
     # --- caches
     for fname in ('Numerics.py', 'Spectrum_mod.py'):
+        since = len(ctx.obligations)
         try:
             names = ep.module_caches(os.path.join(R, fname))
         except ep.Refuse as e:
@@ -205,7 +267,9 @@ def translator_tie(ctx):
                 rb = ck[func]['param_rebinds'].get('xx', [])
                 ctx.obligation('_dbeta_cache: key built from the grid as passed (line %s), value from the clipped grid (re-bound at %r)' % (ck[func]['key_line'], rb),
                                (not rb) or ck[func]['key_line'] < min(rb), 'translator')
+        mark(nc.FAMILIES_OF_FILE[fname], since)
     # Godambe
+    since = len(ctx.obligations)
     try:
         names = ep.module_caches(os.path.join(R, 'Godambe.py'))
         if names == []:
@@ -227,7 +291,9 @@ def translator_tie(ctx):
                     ctx.obligations[-1]['known_key'] = K_GODAMBE
     except ep.Refuse as e:
         ctx.obligation('Godambe.cache key recognised', False, 'translator', str(e))
+    mark(['godambe'], since)
     # LowPass closure cache
+    since = len(ctx.obligations)
     try:
         ck = ep.cache_keys(os.path.join(R, 'LowPass', 'LowPass.py'), 'precalc_cache')
         d = ck.get('lowpass_func')
@@ -238,6 +304,8 @@ def translator_tie(ctx):
                        ok, 'translator', repr(d))
     except ep.Refuse as e:
         ctx.obligation('LowPass precalc_cache recognised', False, 'translator', str(e))
+    mark(['lowpass', 'lowpass-helpers'], since)
+    since = len(ctx.obligations)
     # Inference._theta_store: a log written by _object_func(store_thetas=True), reset and read inside optimize_grid only
     try:
         ck = ep.cache_keys(os.path.join(R, 'Inference.py'), '_theta_store')
@@ -245,6 +313,7 @@ def translator_tie(ctx):
         ctx.obligation('Inference._theta_store is read by optimize_grid only (which resets it first)', readers == ['optimize_grid'], 'translator', repr(readers))
     except ep.Refuse as e:
         ctx.obligation('Inference._theta_store recognised', False, 'translator', str(e))
+    mark(['inference'], since)
     return info
 
 # ------------------------------------------------------------------------------------------------------------------
@@ -582,12 +651,17 @@ def run_many(payloads, seeds=None, exec_each=False):
     out = [None] * len(payloads)
     def unit(u):
         sd, part, par = u
+        t_unit = time.time()
         try:
             r = lib.run_impl('c20_impl.py', {'mode': 'batch', 'jobs': [payloads[i] for i in part], 'par': par}, timeout=3000, env_extra=env_for(sd))
             if 'results' not in r:
                 return [{'crash': r.get('crash', 'no results')}] * len(part)
             if r.get('stamp') != overlay_stamp():
                 return [{'crash': 'the interpreter ran overlay stamp %r, the check was started on %r (overlay rebuilt during the run?)' % (r.get('stamp'), overlay_stamp())}] * len(part)
+            if os.environ.get('C20_TIMING'):
+                import sys as _s
+                _s.stderr.write('unit seed=%s jobs=%d par=%d %.1fs slowest=%r\n' % (sd, len(part), par, time.time() - t_unit,
+                                sorted(((x.get('secs', 0), i) for i, x in zip(part, r['results']) if isinstance(x, dict)), reverse=True)[:3]))
             return r['results']
         except Exception as e:
             return [{'crash': str(e)[-1500:]}] * len(part)
@@ -608,6 +682,13 @@ def op_family(spec):
         return 'Godambe.' + {'FIM': 'FIM_uncert', 'GIM': 'GIM_uncert', 'LRT': 'LRT_adjust'}[spec['f']]
     if spec['op'] == 'sp':
         return 'Spectrum.' + spec['m']
+    if spec['op'] == 'lp':
+        return 'LowPass.' + {'func': 'make_low_pass_func_GATK_multisample', 'projmat': 'projection_matrix', 'partprob': 'partitions_and_probabilities',
+                             'nocall': 'probability_of_no_call_1D_GATK_multisample', 'cem': 'calling_error_matrix', 'enough': 'probability_enough_individuals_covered'}.get(spec['f'], spec['f'])
+    if spec['op'] == 'num':
+        return ('Spectrum_mod.' if spec['f'] == 'cached_dbeta' else 'Numerics.') + {'bbconv': 'BetaBinomConvolution', 'bbconv_all': 'BetaBinomConvolution'}.get(spec['f'], spec['f'])
+    if spec['op'] == 'export':
+        return {'to_file': 'Spectrum.to_file', 'tofile': 'Spectrum.tofile', 'array_to_file': 'Numerics.array_to_file', 'array_to_file_path': 'Numerics.array_to_file'}[spec['how']]
     if spec['op'] == 'demes':
         return 'Spectrum.from_demes(%s)' % (spec.get('yaml') or 'graph built with demes.Builder: ' + spec.get('builder', ''))
     return spec['op'] + ':' + str(spec.get('kind') or spec.get('f') or spec.get('k') or spec.get('yaml') or '')
@@ -697,6 +778,169 @@ def attribute_demes(c, seed, ref, protocols=None):
     return None, ''
 
 
+def near_collision_phase(ctx, rep, info, ents, nc_jobs, allres, ref, broken):
+    """every call of every near-collision history against its pristine-interpreter value; failing calls are shrunk to a
+    two-call history (some earlier call, the failing call) which becomes the replay"""
+    bad, ncrash = [], 0                      # bad: (job index, call index)
+    eff_entry, eff_family, args_seen = {}, {}, set()
+    npairs = neff = ncalls = 0
+    for j, job in enumerate(nc_jobs):
+        e = ents[job['e']]
+        r = allres[('nc', j)]
+        if 'crash' in r:
+            ncrash += 1
+            ctx.obligation('near-collision history of %s / %s ran' % (e['entry'], sorted(set(l for l in job['labels'] if l))), False, 'harness', r['crash'][-400:])
+            continue
+        eff_entry.setdefault(e['entry'], 0)
+        if job['kind'] == 'seq':
+            rec = r['calls'][0]
+            want = ref.get(sig(job['single']))
+            if want is None:
+                continue
+            el = rec.get('elements') or [None, None]
+            wel = want.get('elements') or [None]
+            ok = len(el) == 2 and el[1] == wel[0] and not rec.get('error')
+            effective = [len(el) == 2 and el[0] != el[1]]
+            freeze_findings(rep, job['seq'], rec, 'near-collision pair')
+            ncalls += 1
+            args_seen.add((e['entry'], job['labels'][0]))
+            if not ok:
+                bad.append((j, 0))
+        else:
+            h = job['calls']
+            base_sig = sig(e['base'])
+            effective = []
+            for k, (c, rec) in enumerate(zip(h, r['calls'])):
+                want = ref.get(sig(c))
+                if want is None:
+                    continue
+                ncalls += 1
+                freeze_findings(rep, c, rec, 'near-collision history')
+                if rec['digest'] != want['digest']:
+                    bad.append((j, k))
+                lab = job['labels'][k]
+                if lab is not None:
+                    args_seen.add((e['entry'], lab))
+                    effective.append(want['digest'] != ref[base_sig]['digest'] if base_sig in ref else False)
+        for ef in effective:
+            npairs += 1
+            if ef:
+                neff += 1
+                eff_entry[e['entry']] += 1
+                for f in e['families']:
+                    eff_family[f] = eff_family.get(f, 0) + 1
+        ctx.case(signature=('nearcol', e['entry'], job['kind'], sig({'h': job.get('seq') or job['calls']})) if any(effective) else None,
+                 sample={'near_collision': e['entry'], 'history': job['kind'], 'arguments_varied': sorted(set(l for l in job['labels'] if l))} if j < 2 else None)
+        ctx.count('near-collision histories family=' + e['families'][0])
+    ctx.stats['near_collision'] = {'histories': len(nc_jobs), 'calls_compared_with_pristine': ncalls, 'ordered_pairs_base_variant': npairs,
+                                   'pairs_whose_two_values_differ': neff, 'arguments': len(args_seen), 'entry_points': len(set(e['entry'] for e in ents)),
+                                   'effective_pairs_per_family': eff_family, 'thorough_size_families': sorted(broken)}
+    ctx.obligation('near-collision stream: calls that differ from a base call A in ONE argument, run after A (and A after them) in one process - every call returns bitwise its '
+                   'pristine-interpreter value (%d histories, %d calls; %d (A, variant) pairs over %d arguments of %d entry points of %d memoised families; in %d pairs the two values differ)' % (
+                       len(nc_jobs), ncalls, npairs, len(args_seen), len(eff_entry), len(eff_family), neff), not bad and not ncrash, 'predicate', '%d calls differ' % len(bad))
+    vac = sorted(k for k, v in eff_entry.items() if v == 0)
+    ctx.obligation('near-collision stream is not vacuous: every entry point has pairs whose two pristine values differ', not vac, 'harness', repr(vac))
+    if not bad:
+        return
+    # one violation per (entry point, argument): shrink to a two-call history, then ask which dictionary, emptied, restores the value
+    chosen, seen = [], set()
+    for j, k in bad:
+        job = nc_jobs[j]; e = ents[job['e']]
+        lab = job['labels'][k] if job['kind'] == 'seq' or job['labels'][k] is not None else next((l for l in reversed(job['labels'][:k]) if l), '?')
+        key = (e['entry'].split(' (')[0], lab.split('[')[0])
+        if key in seen:
+            continue
+        seen.add(key); chosen.append((j, k, lab))
+    chosen = chosen[:16]
+    cands = {}
+    for j, k, lab in chosen:
+        job = nc_jobs[j]
+        if job['kind'] == 'seq':
+            continue
+        h = job['calls']
+        pre, got = [], set()
+        base_sig = sig(ents[job['e']]['base'])
+        order = sorted(range(k), key=lambda i: (sig(h[i]) != base_sig, k - i))        # the base call first, then the nearest predecessors
+        for i in order:
+            if sig(h[i]) not in got and sig(h[i]) != sig(h[k]):
+                got.add(sig(h[i])); pre.append(h[i])
+        cands[(j, k)] = [[x, h[k]] for x in pre[:8]]
+    flat = [(jk, pair) for jk, ps in cands.items() for pair in ps]
+    sres = run_many([{'mode': 'eval', 'calls': pair} for _, pair in flat])
+    minimal = {}
+    for (jk, pair), r in zip(flat, sres):
+        if jk in minimal or 'crash' in r:
+            continue
+        if r['calls'][1]['digest'] != ref[sig(pair[1])]['digest']:
+            minimal[jk] = (pair, r['calls'][1]['digest'])
+    dj = sorted(minimal)
+    dres = dict(zip(dj, run_many([{'mode': 'diagnose', 'calls': minimal[jk][0], 'index': 1} for jk in dj])))
+    for j, k, lab in chosen:
+        job = nc_jobs[j]; e = ents[job['e']]
+        uid = 'nearcol:%s:%s' % (e['entry'].split(' (')[0], lab.split('[')[0])
+        meta = {'entry': e['entry'], 'argument': lab, 'families': e['families'], 'history_kind': job['kind']}
+        if job['kind'] == 'seq':
+            rep.report(None, '%s: evaluated for two argument lists that differ only in %s, the second evaluation differs from what a freshly generated function returns for it '
+                       '(the dictionary inside the closure answers for arguments it is not keyed on)' % (e['entry'], lab),
+                       {'kind': 'evalseq', 'call': job['seq'], 'single': job['single'], 'near_collision': meta}, unkeyed_id=uid)
+            continue
+        h = job['calls']
+        want = ref[sig(h[k])]['digest']
+        if (j, k) not in minimal:
+            rep.report(None, '%s: call %d of a near-collision history (calls differing from the first in the argument(s) %s) differs from its pristine-interpreter value; '
+                       'no two-call sub-history reproduces it' % (e['entry'], k, sorted(set(l for l in job['labels'][:k + 1] if l))),
+                       {'kind': 'history', 'calls': h[:k + 1], 'seed': 0, 'index': k, 'fresh_digest': want, 'near_collision': meta}, unkeyed_id=uid)
+            continue
+        (X, Y), got = minimal[(j, k)]
+        d = dres.get((j, k)) or {}
+        stale = got == ref[sig(X)]['digest']
+        culprit = None
+        if 'crash' not in d and d.get('all_cleared') == want:
+            culprit = sorted(n for n, dg in d.get('one_cleared', {}).items() if dg == want)
+        key = K_GODAMBE if (culprit and 'Godambe.cache' in culprit and info.get('godambe_key') == 'identity-hash') else None
+        what = ('%s: call B differs from call A only in the argument `%s`; evaluated after A in the same process, B returns %s instead of its pristine-interpreter value%s '
+                '- the memoised %s data is keyed on too little (C20_near_collision_pair_decides: a key that told A and B apart would have answered both correctly)' % (
+                    e['entry'], lab, 'the value of A' if stale else 'a different value',
+                    ('; emptying %s before B restores it' % ', '.join(culprit)) if culprit else
+                    ('; no module-level dictionary, emptied, restores it (%s)' % json.dumps({kk: d.get(kk) for kk in ('as_is', 'all_cleared')})[:120] if d else ''),
+                    '/'.join(e['families'])))
+        rep.report(key, what, {'kind': 'history', 'calls': [X, Y], 'seed': 0, 'index': 1, 'fresh_digest': want,
+                               'near_collision': dict(meta, second_call_returns_value_of_first=stale), 'diagnosis': d}, unkeyed_id=uid)
+
+
+def export_phase(ctx, rep, export_calls, allres):
+    """Spectrum.to_file / tofile / Numerics.array_to_file: text written for a non-contiguous spectrum = text for its C-contiguous copy"""
+    nbad = nnc = 0
+    for j, c in enumerate(export_calls):
+        r = allres[('export', j)]
+        fam = op_family(c)
+        if 'crash' in r or 'build_error' in r['calls'][0]:
+            ctx.obligation('exporter case %s ran' % short(c), False, 'harness', json.dumps(r)[:300])
+            continue
+        rec = r['calls'][0]
+        ex = rec.get('export')
+        ctx.case(signature=('export', sig(c)))
+        ctx.count('exporter cases ' + fam)
+        if rec.get('error') or ex is None:
+            nbad += 1
+            rep.report(None, '%s fails for a non-contiguous spectrum (%s): %s' % (fam, c['pre'][0], rec.get('error')), {'kind': 'export', 'call': c}, unkeyed_id='export-err:' + fam)
+            continue
+        if not ex['c_contiguous']:
+            nnc += 1
+        freeze_findings(rep, c, rec, 'exporter')
+        if not ex['same_text']:
+            nbad += 1
+            how = {'reorder_pops': 'the transposed view returned by reorder_pops', 'transpose': 'a transposed view', 'swapaxes': 'a swapaxes view', 'flip': 'a negatively strided view',
+                   'step': 'a strided slice', 'fortran': 'a Fortran-ordered array'}[c['pre'][0]]
+            rep.report(None, '%s writes different text for %s than for its C-contiguous copy (strides %s): %r vs %r' % (
+                fam, how, ex['strides'], ex['text'].splitlines()[-2 if c['how'] in ('to_file', 'tofile') and c.get('foldmaskinfo', True) else -1][:60],
+                ex['text_contiguous_copy'].splitlines()[-2 if c['how'] in ('to_file', 'tofile') and c.get('foldmaskinfo', True) else -1][:60]),
+                {'kind': 'export', 'call': c, 'observed': ex}, unkeyed_id='export:' + fam)
+    ctx.obligation('exporters (Spectrum.to_file / tofile, Numerics.array_to_file): the text written for a non-contiguous spectrum (reorder_pops view, transposed, swapped axes, '
+                   'negatively strided, strided, Fortran-ordered) equals the text for its C-contiguous copy (%d cases, %d with non-C-contiguous data)' % (len(export_calls), nnc),
+                   nbad == 0 and nnc >= len(export_calls) - 2, 'predicate', '%d differ' % nbad)
+
+
 def memo_case_text(res):
     """Coq record for one instrumented history"""
     kid, vid = {}, {}
@@ -718,14 +962,17 @@ def run(ctx):
     ctx.rule = ('catalogue of distinct call specifications drawn from one PRNG (Spectrum methods, demographic models 1-5 populations incl. extrapolation, '
                 'from_phi / from_phi_inbreeding d=1..5, integrators d=1..5 (constant and time-dependent parameters, T=0, frozen), PhiManip, low-pass and '
                 'inbreeding helpers, memoised Numerics functions, likelihoods, optimiser helpers, Godambe, from_demes on tests/demes/*.yaml, from_data_dict); '
-                'a history = 2..N calls sampled with replacement from the catalogue; distinct = distinct history / distinct call specification; '
+                'a history = 2..N calls sampled with replacement from the catalogue; near-collision histories: a base call per public entry point of every memoised '
+                'family and, per argument of its signature, 2 (quick) / 4 (thorough; 5 for a family whose source obligation broke) calls differing in that argument only; '
+                'distinct = distinct history / distinct call specification; '
                 'non-trivial = history in which at least one call finds a cache populated by an earlier call, or layout case with a non-contiguous argument')
     ctx.assumptions += ['bitwise comparison (float.hex of every unmasked entry, masks, labels) only between runs of the same code on the same machine',
                         'layout differential: |result(view) - result(contiguous copy)| <= 1e-10 * max|result| (numpy may legitimately change the summation order for strided input)',
                         'exact-arithmetic model of memoisation; aliasing, strides, id() reuse and hash randomisation are runtime facts observed by the runs, not proved']
     ctx.trusted += ['oracles (Section variables) in Model/Memo.v: gammaln, betaln, lncomb, betainc, clip01 and arithmetic on an abstract number type',
                     'the kernels are an arbitrary function on the raw buffer they are handed (Heap.v: kern)',
-                    'harness/translate/entry_protocol.py (fail-closed ast / .pyx line translators)',
+                    'harness/translate/entry_protocol.py, harness/props/c20_scan.py (fail-closed ast / .pyx line translators)',
+                    'the random sources of the simulated low-pass entries (numpy global generator, LowPass.rng) are seeded by the driver before each call',
                     'CPython releases a closure when the call that made it returns and may hand its address to the next one (Godambe allocator model)']
     if ctx.replay:
         return run_replay(ctx)
@@ -769,6 +1016,24 @@ def run(ctx):
     phi2 = copy.deepcopy(cat.phis[(2, 8)][0])
     grid_calls = [{'op': 'from_phi', 'd': 2, 'pts': 8, 'phi': phi2, 'ns': [3, 3]}, {'op': 'from_phi', 'd': 2, 'pts': 8, 'phi': copy.deepcopy(phi2), 'ns': [3, 3], 'grid': 'lin'}]
     label_calls += grid_calls
+    # exporters: the TEXT written for a spectrum must not depend on the memory layout of its data (layout differential below)
+    fsx3 = gen_fs(rng, (3, 4, 3)); fsx3['pop_ids'] = labels[:3]
+    fsx2 = gen_fs(rng, (4, 3), extra_mask=True)
+    label_calls += [{'op': 'sp', 'm': 'to_file', 'fs': copy.deepcopy(fsx3), 'a': []}, {'op': 'sp', 'm': 'to_file', 'fs': copy.deepcopy(fsx2), 'a': [], 'foldmaskinfo': False},
+                    {'op': 'sp', 'm': 'array_to_file', 'fs': copy.deepcopy(fsx3), 'a': []}, {'op': 'sp', 'm': 'array_to_file', 'fs': copy.deepcopy(fsx2), 'a': [], 'plain': 'ndarray'}]
+    export_calls = []
+    for fsx, pres in ((fsx3, [['reorder_pops', [3, 1, 2]], ['reorder_pops', [2, 1, 3]], ['transpose'], ['swapaxes', 0, 2], ['flip'], ['step'], ['fortran']]),
+                      (fsx2, [['reorder_pops', [2, 1]], ['transpose'], ['flip'], ['step'], ['fortran']])):
+        for pre in pres:
+            for how in ('to_file', 'array_to_file'):
+                export_calls.append({'op': 'export', 'how': how, 'fs': copy.deepcopy(fsx), 'pre': pre, 'comments': ['written by the C20 check']})
+            if pre[0] in ('reorder_pops', 'flip'):
+                export_calls.append({'op': 'export', 'how': 'tofile', 'fs': copy.deepcopy(fsx), 'pre': pre, 'precision': 8})
+                export_calls.append({'op': 'export', 'how': 'array_to_file_path', 'plain': 'ndarray', 'fs': copy.deepcopy(fsx), 'pre': pre})
+                export_calls.append({'op': 'export', 'how': 'array_to_file', 'plain': 'masked', 'fs': copy.deepcopy(fsx), 'pre': pre})
+                export_calls.append({'op': 'export', 'how': 'to_file', 'fs': copy.deepcopy(fsx), 'pre': pre, 'foldmaskinfo': False})
+    fsxf = gen_fs(rng, (5, 5)); fsxf['fold'] = True
+    export_calls.append({'op': 'export', 'how': 'to_file', 'fs': fsxf, 'pre': ['transpose']})
     for s in directed + directed_lrt + label_calls + nonconst_each:
         if sig(s) not in set(sig(c) for c in calls):
             calls.append(s)
@@ -819,12 +1084,63 @@ def run(ctx):
         ss = list(seeds)
         for k, s in enumerate(ss):
             plan.append((hi, s, k == 0))
+    # ---- near-collision stream: for every memoised family and EVERY argument of every public entry point feeding it, pairs
+    # (A, B) that differ in exactly that argument; A then B and B then A in one process, the second call against its pristine value.
+    # A family whose source obligation broke gets thorough-size numbers (that IS the search for a failing input).
+    broken = set(info.get('broken_families', ()))
+    def nval_of(fams):
+        return 5 if (set(fams) & broken) else ctx.pick(2, 4)
+    def nbase_of(fams):
+        return 3 if (set(fams) & broken) else ctx.pick(1, 3)
+    ents = nc.entries(cat, rng, nval_of, nbase_of, gen_fs, gen_phi)
+    nc.check_signatures(ctx, ents, R, scan)
+    nc_refs, nc_jobs = {}, []
+    for ei, e in enumerate(ents):
+        A = e['base']
+        explicit = (not ctx.quick) or bool(set(e['families']) & broken)
+        if e.get('seq'):
+            for arg, variants in sorted(e['vars'].items()):
+                for B in variants:
+                    a, bb = A['evals'][0], B['evals'][0]
+                    for order, (x, y) in (('AB', (a, bb)), ('BA', (bb, a))):
+                        spec = dict(copy.deepcopy(A), evals=[x, y]); single = dict(copy.deepcopy(A), evals=[y])
+                        nc_refs[sig(single)] = single
+                        nc_jobs.append({'e': ei, 'kind': 'seq', 'labels': [arg], 'seq': spec, 'single': single})
+            continue
+        nc_refs[sig(A)] = A
+        rev, rev_lab = [], []
+        for arg, variants in sorted(e['vars'].items()):
+            vs = [B for B in variants if sig(B) != sig(A)]
+            if not vs:
+                continue
+            for B in vs:
+                nc_refs[sig(B)] = B
+            # A, then the calls that differ from A in this ONE argument (the first of them runs right after A)
+            nc_jobs.append({'e': ei, 'kind': 'chain', 'calls': [A] + vs, 'labels': [None] + [arg] * len(vs)})
+            rev += list(reversed(vs)); rev_lab += [arg] * len(vs)
+            if explicit:
+                # isolated two-call histories, both orders (always in the thorough tier and for a family whose source obligation broke)
+                for B in vs:
+                    nc_jobs.append({'e': ei, 'kind': 'pair', 'calls': [A, B], 'labels': [None, arg]})
+                    nc_jobs.append({'e': ei, 'kind': 'pair', 'calls': [B, A], 'labels': [arg, None]})
+        # the other order: every variant first, A last (A must not be answered from an entry one of the variants left behind)
+        nc_jobs.append({'e': ei, 'kind': 'reverse', 'calls': rev + [A], 'labels': rev_lab + [None]})
+    nc_calls = [c for k, c in nc_refs.items() if k not in bysig]
+    for e in ents:
+        for f in e['families']:
+            ctx.count('near-collision entry points family=' + f)
+    if broken:
+        ctx.notes.append('source obligation(s) of the families %s broke: their near-collision pairs run in thorough-size numbers' % sorted(broken))
     # ---- ONE round: every job in its own fork of an interpreter that has only imported dadi
     jobs, tags, jseeds = [], [], []
     def add(tag, payload, seed=0):
         jobs.append(payload); tags.append(tag); jseeds.append(seed)
-    for c in calls:
+    for c in calls + nc_calls:
         add(('ref', sig(c)), {'mode': 'eval', 'calls': [c]})
+    for j, job in enumerate(nc_jobs):
+        add(('nc', j), {'mode': 'eval', 'calls': [job['seq']] if job['kind'] == 'seq' else job['calls']})
+    for j, c in enumerate(export_calls):
+        add(('export', j), {'mode': 'eval', 'calls': [c]})
     add(('gimseq',), {'mode': 'eval', 'calls': [gimseq]})
     for k, ch in enumerate(chunks):
         add(('layout', k), {'mode': 'layout', 'calls': ch})
@@ -838,7 +1154,7 @@ def run(ctx):
 
     # ---- references: every distinct call once, from the pristine state (hash seed 0)
     ref = {}
-    for c in calls:
+    for c in calls + nc_calls:
         r = allres[('ref', sig(c))]
         if 'crash' in r or 'build_error' in r['calls'][0]:
             ctx.obligation('reference evaluation of %s' % short(c), False, 'harness', json.dumps(r)[:400])
@@ -850,7 +1166,7 @@ def run(ctx):
         freeze_findings(rep, c, rec, 'fresh interpreter')
         if any(r['init_keys'].values()):
             ctx.obligation('module-level caches are empty after import', False, 'predicate', repr(r['init_keys']))
-    ctx.obligation('all %d distinct calls evaluated from the pristine state, each in its own process' % len(calls), len(ref) == len(calls), 'harness')
+    ctx.obligation('all %d distinct calls evaluated from the pristine state, each in its own process' % (len(calls) + len(nc_calls)), len(ref) == len(calls) + len(nc_calls), 'harness')
     # a fork of a just-imported interpreter stands for a newly started interpreter: checked on a sample with real exec's
     vs = [c for c in calls if sig(c) in ref][::max(1, len(calls) // ctx.pick(6, 24))][:ctx.pick(6, 24)]
     vres = run_many([{'mode': 'eval', 'calls': [c]} for c in vs], exec_each=True)
@@ -962,6 +1278,9 @@ def run(ctx):
                    unkeyed_id='hist:' + fam)
 
     lap('diagnose')
+    near_collision_phase(ctx, rep, info, ents, nc_jobs, allres, ref, broken)
+    export_phase(ctx, rep, export_calls, allres)
+    lap('near-collision pairs, exporters')
     # ---- memo machine inside Coq
     header = 'From Coq Require Import ZArith NArith List.\nFrom Dadi Require Import Model.Memo Model.MemoCheck.\nImport ListNotations.'
     mres = ctx.coq_cases('memo', header, memo_cases, 'memo_check', 'exact (ids)', shard=ctx.pick(8, 20), kind='memo')
@@ -1043,8 +1362,9 @@ def run(ctx):
                 elif is_integ and v['arg'] == 'xx':
                     xx_bad.setdefault(INTEG_NAME[c['d']], (c, v))
                 else:
-                    rep.report(None, '%s gives a different result for a %s-layout argument %s than for its contiguous copy (max |diff| %.3g, scale %.3g)' % (
-                        fam, v['variant'], v['arg'], v['maxdiff'], v['scale']), {'kind': 'layout', 'call': dict(c, _layout_args=[v['arg']]), 'variant': v},
+                    rep.report(None, '%s gives a different result for a %s-layout argument %s than for its contiguous copy (%s)' % (
+                        fam, v['variant'], v['arg'], 'the written text / labels / shape differ' if not v['struct_ok'] else 'max |diff| %.3g, scale %.3g' % (v['maxdiff'], v['scale'])),
+                        {'kind': 'layout', 'call': dict(c, _layout_args=[v['arg']]), 'variant': v},
                         unkeyed_id='layout:' + fam + ':' + v['arg'])
                 # in the layout runs too: arguments must stay frozen (the in-place integrators are reported by the freeze stream already)
             for v in rec['variants']:
@@ -1102,6 +1422,25 @@ def run_replay(ctx):
         ctx.obligation('replayed call gives the contiguous-copy result for every layout of the argument', not bad, 'predicate', json.dumps(bad)[:300])
         if bad:
             ctx.violation('%s: result depends on the memory layout of %s (%s)' % (op_family(inp['call']), bad[0]['arg'], bad[0]['variant']), data=inp, key=rp.get('key'))
+    elif kind == 'evalseq':
+        single = run_many([{'mode': 'eval', 'calls': [inp['single']]}])[0]
+        seq = run_many([{'mode': 'eval', 'calls': [inp['call']]}])[0]
+        el = seq['calls'][0].get('elements') or [None, None]
+        wel = single['calls'][0].get('elements') or [None]
+        ok = len(el) == 2 and el[1] == wel[0]
+        ctx.case(sample={'elements': el, 'single': wel})
+        ctx.obligation('second evaluation of the replayed generated function returns what a fresh one returns', ok, 'predicate')
+        if not ok:
+            ctx.violation('%s: the second of two evaluations of one generated function differs from its fresh value' % op_family(inp['call']), data=inp, key=rp.get('key'))
+    elif kind == 'export':
+        r = run_many([{'mode': 'eval', 'calls': [inp['call']]}])[0]
+        rec = r.get('calls', [{}])[0]
+        ex = rec.get('export')
+        ok = bool(ex) and ex['same_text'] and not rec.get('error')
+        ctx.case(sample={'call': short(inp['call']), 'export': ex})
+        ctx.obligation('replayed exporter writes the text of the C-contiguous copy', ok, 'predicate', json.dumps(ex)[:300])
+        if not ok:
+            ctx.violation('%s: the written text depends on the memory layout of the spectrum' % op_family(inp['call']), data=inp, key=rp.get('key'))
     elif kind == 'gimseq':
         singles = run_many([{'mode': 'eval', 'calls': [c]} for c in inp['singles']])
         seq = run_many([{'mode': 'eval', 'calls': [inp['call']]}])[0]
